@@ -247,6 +247,55 @@ def c01_roundtrip(w, ev, slot):
     return 'c01:ok'
 
 
+def _raw_metadata_problems(path, ref):
+    """per-id metadata datasets, read with raw h5py only: one entry per id,
+    in axis order, holding that id's value"""
+    import h5py
+    probs = []
+    with h5py.File(path, 'r') as f:
+        for ax, axis in ((0, 'observation'), (1, 'sample')):
+            md = ref.md[ax]
+            grp = f[axis]['metadata']
+            names = {k.replace('@@SLASH@@', '/'): k for k in grp}
+            if md is None:
+                if len(names):
+                    probs.append('%s/metadata has datasets %r but the table '
+                                 'has no %s metadata' % (axis, sorted(names),
+                                                         axis))
+                continue
+            keys = sorted(md[0])
+            if sorted(names) != keys:
+                probs.append('%s/metadata datasets %r, table categories %r'
+                             % (axis, sorted(names), keys))
+                continue
+            for k in keys:
+                ds = grp[names[k]]
+                raw = ds[()]
+                want = [d[k] for d in md]
+                if len(raw) != len(want):
+                    probs.append('%s/metadata/%s has %d rows for %d ids'
+                                 % (axis, k, len(raw), len(want)))
+                    continue
+                for i, (r, x) in enumerate(zip(raw, want)):
+                    if isinstance(x, list):
+                        got = [spec_h5._text(v) for v in np.atleast_1d(r)]
+                        got = [v for v in got if v != '']
+                        ok = got == x
+                    elif isinstance(x, str):
+                        ok = spec_h5._text(r) == x
+                    elif isinstance(x, bool):
+                        ok = not isinstance(r, (bytes, str)) and \
+                            bool(r) == x
+                    else:
+                        ok = not isinstance(r, (bytes, str)) and r == x
+                    if not ok:
+                        probs.append('%s/metadata/%s row %d holds %r, the id '
+                                     '%r has %r' % (axis, k, i, r,
+                                                    ref.ids[ax][i], x))
+                        break
+    return probs
+
+
 @probe('c04_spec')
 def c04_spec(w, ev, slot):
     import h5py
@@ -285,6 +334,8 @@ def c04_spec(w, ev, slot):
                                      target.ref.ids)
     if target.ref.m.size and (target.ref.m != 0).any():
         w.stats['c04.nonzero_tables'] += 1
+    if not probs:
+        probs += _raw_metadata_problems(path, target.ref)
     os.unlink(path)
     if probs:
         w.fail('c04.spec', 'file violates BIOM 2.1: ' + '; '.join(probs[:4]))
